@@ -25,3 +25,16 @@ func init() {
 		},
 	})
 }
+
+func init() {
+	register(&propSpec{
+		ID: "C13", Level: "fault_enumeration",
+		QuickRuns: 12000, QuickSecs: 90, ThorRuns: 1500000, ThorSecs: 1500,
+		Rule: "one evaluation = one seeded case: a generated handler sequence of 0-8 response operations over the 11-operation alphabet, 0-5 middlewares with priorities from {-1,0,0,1,5} (optional pre/post operations, short-circuit), optional onError handler, connection mode (strict body rules, write error at the j-th write); for that case the request is served once without abort and once for EVERY abort point (handler throws before operation k, k=0..len), each through the real ServeMux into the simulated connection and compared with the commit-once reference model. Non-trivial = the handler sequence is non-empty; distinct = distinct hash of all observations of the case.",
+		Assume: []string{
+			"body bytes of json/html/success/error are taken from serving that single operation alone at the same fake time (the serializer is not re-implemented)",
+			"after a handler abort with an error handler registered, both 'pending status is committed at the abort' and 'the error handler's status wins' are accepted; what is demanded is a single commit and model-consistent status/headers/body",
+			"real sockets, http.Server, keep-alive and HTTP/2 framing are not simulated",
+		},
+	})
+}
